@@ -942,7 +942,7 @@ func runVarint(c *Ctx) {
 }
 
 func fmtPageRule() *Rule {
-	return &Rule{ID: "FMT-page", Props: []string{"C01", "C02", "C14", "C03", "C13", "C04"}, Min: 12,
+	return &Rule{ID: "FMT-page", Props: []string{"C01", "C02", "C14", "C03", "C13", "C04", "C15"}, Min: 12,
 		Doc: "b-tree page and cell layout per fileformat2 §1.6: page type codes 13/5/10/2 select the right page kind; cell count at header bytes 3..4, right-most pointer at 8..11, cell pointer array at 8 (leaf) / 12 (interior), header at byte 100 on page 1, cell offsets relative to the page start; cell formats: table leaf = varint length, varint rowid, payload; table interior = 4-byte child, varint key; index leaf = varint length, payload; index interior = 4-byte child, varint length, payload",
 		Run: runFmtPage}
 }
